@@ -1,9 +1,9 @@
 SPECIFICATION Spec
 CONSTANTS
-  ObjRecs <- MC_ObjRecs
-  ConRecs <- MC_ConRecs
-  MaxCons = 2
-  Methods <- MC_Methods
+  ObjRecs <- MC_ObjRecsP
+  ConRecs <- MC_ConRecsP
+  MaxCons = 1
+  Methods <- MC_MethodsAll
   FaultExcs <- MC_Excs
   OnlySuccess = FALSE
   EditInvalidates = TRUE
